@@ -195,6 +195,8 @@ def run_case(ctx, case):
     from jsonargparse import ArgumentError
 
     warnings.simplefilter("ignore")
+    if case.get("kind") == "dcf":
+        return dcf_family(ctx, only=case)
     tree, cfg, env, path, chan = case["tree"], case["cfg"], case["env"], case["path"], case["channel"]
     exp = model(tree, cfg if chan not in ("env",) else {}, env, path)
     old_env = dict(os.environ)
@@ -284,13 +286,73 @@ def body(ctx):
     return f
 
 
+def dcf_family(ctx, only=None):
+    """a default config file of the root parser with a section for every subcommand and no explicit choice: whichever subcommand the
+    input names, its section of the default config is part of its settings - with and without environment parsing switched on.
+    Enumerated: environment on/off x {argv, object, string, --cfg string} x the subcommand named."""
+    import tempfile
+    import warnings
+
+    from jsonargparse import ArgumentError, ArgumentParser
+
+    warnings.simplefilter("ignore")
+    d = tempfile.mkdtemp(prefix="vf_c17d_")
+    f = os.path.join(d, "dcf.yaml")
+    with open(f, "w") as fh:
+        fh.write(json.dumps({"t": 5, "a": {"o1": 11}, "b": {"o1": 22}, "c": {"o1": 33}}))
+    old_env = dict(os.environ)
+    try:
+        for env in (False, True):
+            for how in ("argv", "object", "string", "--cfg string"):
+                for ch, want in (("a", 11), ("b", 22), ("c", 33)):
+                    case = {"kind": "dcf", "env": env, "how": how, "choice": ch}
+                    if only is not None and case != only:
+                        continue
+                    if only is None:
+                        ctx.begin(case)
+                    r = ArgumentParser(exit_on_error=False, prog="app", env_prefix="APP", default_env=env, default_config_files=[f])
+                    r.add_argument("--cfg", action="config")
+                    r.add_argument("--t", type=int, default=0)
+                    sc = r.add_subcommands(required=True, dest="sub")
+                    for n, dv in (("a", 1), ("b", 2), ("c", 3)):
+                        q = ArgumentParser(exit_on_error=False)
+                        q.add_argument("--cfg", action="config")
+                        q.add_argument("--o1", type=int, default=dv)
+                        sc.add_subcommand(n, q)
+                    try:
+                        c = (r.parse_args([ch]) if how == "argv" else r.parse_object({"sub": ch}) if how == "object" else r.parse_string(json.dumps({"sub": ch}))
+                             if how == "string" else r.parse_args(["--cfg", json.dumps({"sub": ch})]))
+                        got = (c.sub, c[ch].o1 if ch in c else None, c.t, [k for k in ("a", "b", "c") if k in c])
+                    except ArgumentError as ex:
+                        got = ("ERR", str(ex)[:200])
+                    ctx.cls(f"dcf-family:{how}:env={env}")
+                    if got != (ch, want, 5, [ch]):
+                        if how == "argv" and ch != "a" and got == (ch, {"b": 2, "c": 3}[ch], 5, [ch]):
+                            # the default config implicitly selects the first subcommand with settings; the one named on the command line loses its section
+                            ctx.finding("C17/F22/sections-of-the-subcommand-chosen-on-the-command-line-are-dropped-when-the-config-selects-another", {"case": case, "got": short(got, 200)})
+                        else:
+                            ctx.finding(f"C17/dcf/section-of-the-default-config-not-in-the-chosen-subcommand/{how}/env={env}", {"choice": ch, "got": short(got, 200), "expected": [ch, want, 5, [ch]]})
+                    if only is None:
+                        ctx.mark_nontrivial_enumerated()
+                        if not ctx.end(raise_on_fail=False):
+                            return
+    finally:
+        os.environ.clear()
+        os.environ.update(old_env)
+        import shutil
+
+        shutil.rmtree(d, ignore_errors=True)
+
+
 def plan(tier):
     if tier == "quick":
-        return [{"n": 1500} for _ in range(16)]
-    return [{"n": 8000} for _ in range(16)]
+        return [{"kind": "dcf"}] + [{"n": 1500} for _ in range(16)]
+    return [{"kind": "dcf"}] + [{"n": 8000} for _ in range(16)]
 
 
 def run_shard(spec, ctx):
+    if spec.get("kind") == "dcf":
+        return dcf_family(ctx)
     run_given(ctx, case_strategy(), body(ctx), spec["n"])
 
 
